@@ -44,6 +44,36 @@ pub fn run(input: &Tree) -> Option<Tree> {
                 tl![A(2), state_tree(&st, &strings), A(k), ab(inputs_intact(&st, l.get(2)?))]
             }
         }),
+        2 => {
+            // two phases: run until the step limit (or the end), LOOK at the printed output on the state itself, run on
+            // from there - looking at the output must not disturb it (observed as mode 0 observes the second run)
+            let st_tree = l.get(2)?;
+            macro_rules! fin {
+                ($r:expr) => {
+                    match $r {
+                        Ok(s) => tl![A(0), state_tree(&s, &strings), A(0), ab(inputs_intact(&s, st_tree))],
+                        Err(e) => {
+                            let d = format!("{e:?}");
+                            let k = fatal_kind(&d, 4);
+                            let st = e.into_state();
+                            tl![A(2), state_tree(&st, &strings), A(k), ab(inputs_intact(&st, st_tree))]
+                        }
+                    }
+                };
+            }
+            Some(match state.run_to_completion() {
+                Ok(mut s1) => {
+                    let _ = s1.stdout_string();
+                    fin!(s1.run_to_completion())
+                }
+                Err(e) => {
+                    let d = format!("{e:?}");
+                    let k = fatal_kind(&d, 4);
+                    let st = e.into_state();
+                    tl![A(2), state_tree(&st, &strings), A(k), ab(inputs_intact(&st, st_tree))]
+                }
+            })
+        }
         1 => {
             let p = mk_prog(l.get(3)?, &strings)?;
             let before = state.clone();
@@ -382,7 +412,25 @@ fn gen(tier: &str, rng: &mut Sm) -> Gen {
         g.inputs.push(tl![A(1), strings_tree(), st, p]);
     }
     program_cases(&mut g, rng, if thorough { 30000 } else { 1500 }, if thorough { 400 } else { 150 });
-    g.meta("generator", "every instruction x boundary operand values (single perform) + random nested programs (run_to_completion)");
+    // two-phase runs (the output is looked at between the phases): printing programs under small step limits, and every
+    // fifth random program again
+    {
+        let printing = vec![
+            tl![A(6), A(42)], tl![A(10), A(0), A(0)], tl![A(35), A(1)], tl![A(6), A(-7)], tl![A(10), A(0), A(1)], tl![A(8), A(1)], tl![A(10), A(2), A(0)],
+            tl![A(32)], tl![A(7), a(fbits(2.5))], tl![A(10), A(1), A(1)], tl![A(34)], tl![A(35), A(2)], tl![A(33)],
+        ];
+        for lim in 0..=14usize {
+            let st = tl![A(20), L(printing.clone()), A(5), L(vec![]), A(5), L(vec![]), A(5), L(vec![]), L(vec![]), au(lim)];
+            g.inputs.push(tl![A(2), strings_tree(), st, L(vec![])]);
+        }
+        let twins: Vec<Tree> = g.inputs.iter().filter(|i| i.list().is_some_and(|l| l[0].int() == Some(0))).step_by(5).cloned().collect();
+        for t in twins {
+            let mut l = t.list().unwrap().to_vec();
+            l[0] = A(2);
+            g.inputs.push(L(l));
+        }
+    }
+    g.meta("generator", "every instruction x boundary operand values (single perform) + random nested programs (run_to_completion) + two-phase runs with the printed output looked at in between");
     g
 }
 
